@@ -31,6 +31,7 @@ DepsOf(name) ==
 \* output modules share one cache directory)
 UProg(r) == LET used == {OutOf(r).name} \cup DepsOf(OutOf(r).name) IN SelectSeq(prog, LAMBDA m : m.name \in used)
 
+Prefix(label, p) == Len(label) >= Len(p) /\ SubSeq(label, 1, Len(p)) = p
 Datas(o) == SelectSeq(o.resp, LAMBDA x : x.kind = "data")
 \* what a data message carries: the decimal value of a mapper, or the keys of a block-index module requested as output
 ObsPayload(d, r) == IF OutOf(r).kind = "index" /\ "keys" \in DOMAIN d THEN d.keys ELSE d.payload
@@ -109,7 +110,8 @@ RunFails(r, from) ==
   \o F(\A i \in 1..(Len(ds) - 1) : ds[i].num < ds[i + 1].num, "not_strictly_increasing")
   \o F(\A i \in DOMAIN ds : ds[i].num <= MaxBlock => ObsPayload(ds[i], r) = PayloadOf(Res(ds[i].num), OutOf(r).name), "payload_differs_from_sequential_execution")
   ELSE
-     F(o.err = "", FailSig(r))
+     \* (a request the HARNESS cancelled on purpose ends with an error: what it delivered before must still be right)
+     F(o.err = "" \/ Prefix(c.label, "cancel/victim"), FailSig(r))
   \o F(\A i \in DOMAIN ds : ds[i].num >= S2 /\ ds[i].num < E, "block_outside_requested_range")
   \o F(\A i \in 1..(Len(ds) - 1) : ds[i].num < ds[i + 1].num, "not_strictly_increasing")
   \o F(\A i \in DOMAIN ds : ds[i].curnum = ds[i].num /\ ds[i].curid = ds[i].id, "cursor_designates_other_block")
@@ -138,11 +140,10 @@ ResumeFails(r, from) ==
 \* C07 when the run started on a subset of cache files; C15 when the output module is block-filtered; C16 under faults
 ShapeSigs == {"block_outside_requested_range", "not_strictly_increasing", "cursor_designates_other_block", "block_missing",
               "resumed_stream_is_not_the_suffix", "panic"}
-Prefix(label, p) == Len(label) >= Len(p) /\ SubSeq(label, 1, Len(p)) = p
 PropsOf(sig, r) ==
      <<"C01">>
   \o (IF sig \in ShapeSigs \/ Prefix(r.cfg.label, "resume") THEN <<"C04">> ELSE <<>>)
-  \o (IF Prefix(r.cfg.label, "subsets") \/ Prefix(r.cfg.label, "concurrent") THEN <<"C07">> ELSE <<>>)
+  \o (IF Prefix(r.cfg.label, "subsets") \/ Prefix(r.cfg.label, "concurrent") \/ Prefix(r.cfg.label, "cancel") THEN <<"C07">> ELSE <<>>)
   \o (IF \E i \in DOMAIN UProg(r) : UProg(r)[i].filter # <<>> THEN <<"C15">> ELSE <<>>)
   \o (IF Prefix(r.cfg.label, "faults") THEN <<"C16">> ELSE <<>>)
   \* C05 (liveness on the real code): a parallel request must terminate with the right outcome, never hang, fail or crash
